@@ -1,19 +1,86 @@
-(* C05 — text that already fits is returned unchanged; the shortcut path is
-   unobservable.  Fragment level (assembled statement pending Proofs/Pipeline.v and
-   Proofs/Fits.v): if all fragments fit on the first line, first-fit returns one line. *)
-From Coq Require Import ZArith.
-From TW Require Import Wrap.
-From TW Require Import InplaceFacts EscFacts.
+(* C05 — text that already fits is returned unchanged; the shortcut path is unobservable.
+   one_line o first p = the line (indent ++ p without trailing spaces), Borrowed at offset
+   0 when the indent is empty.
+   Hypotheses and where they come from:
+   * TrimOK (the word list's body does not end in a space): a theorem for the ASCII
+     separator; for the Unicode separator it follows from OracleOK and "no break between
+     two spaces" (UAX #14 LB7), both asserted on every generated case;
+   * Additive (the cached widths add up to the paragraph's display width): its negation is
+     the listed known finding CutInsideEscape (D6); it follows from TopLevelCuts;
+   * PenOK (an inserted hyphen has room): its negation is the listed known finding
+     PenaltyWithoutRoom (D9); a theorem for the built-in splitters. *)
+From TW Require Import Wrap Custom.
+From TW Require Import Pipeline Lossless Fits.
 
-Theorem C05_display_width_le_byte_length : forall (cw : char -> N), (forall c, cw c <= utf8_len c) ->
-  forall t, dw cw t <= blen t.
-Proof. exact dw_le_blen. Qed.
+(* (a) fits => exactly one line, first-fit, any oracle *)
+Theorem C05_fits_first_fit : forall cw alnum lbc custom_sp ofit o first p,
+  SplitterOK custom_sp -> o_alg o = FirstFit ->
+  TrimOK cw alnum lbc custom_sp o first p -> Additive cw alnum lbc custom_sp o first p ->
+  (forall bws, pipeline_words cw alnum lbc custom_sp o first p = Some bws -> PenOK bws) ->
+  dw cw (trim_end_sp p) + dw cw (if first then o_ii o else o_si o) <= o_width o ->
+  slow_path cw alnum lbc custom_sp ofit o first p = Some [one_line o first p].
+Proof. exact fits_first_fit. Qed.
 
-(* wcost x = cached width + whitespace length *)
-Theorem C05_first_fit_one_line : forall (W : N) (xs : list word),
-  Forall (fun x => w_pen x = []) xs -> sum_N (map wcost xs) <= W ->
-  first_fit word_frag xs [Z.of_N W] = [xs].
-Proof. exact first_fit_fits. Qed.
+(* (a) optimal-fit with the reference oracle; default penalties are an instance (any
+   penalties with a positive per-line penalty do) *)
+Theorem C05_fits_optimal_fit : forall cw alnum lbc custom_sp P o first p,
+  SplitterOK custom_sp -> o_alg o = OptimalFit P -> 0 < p_nline P ->
+  TrimOK cw alnum lbc custom_sp o first p -> Additive cw alnum lbc custom_sp o first p ->
+  dw cw (trim_end_sp p) + dw cw (if first then o_ii o else o_si o) <= o_width o ->
+  slow_path cw alnum lbc custom_sp ofit_dp o first p = Some [one_line o first p].
+Proof. exact fits_optimal_fit_gen. Qed.
 
-Print Assumptions C05_display_width_le_byte_length.
-Print Assumptions C05_first_fit_one_line.
+(* (b) the byte-length shortcut of wrap is unobservable: for ALL paragraphs (no additivity,
+   no PenOK: every cached width is at most a byte length) *)
+Theorem C05_shortcut_first_fit : forall (cw : char -> N) alnum lbc custom_sp,
+  (forall c, cw c <= utf8_len c) -> forall ofit o first p,
+  SplitterOK custom_sp -> o_alg o = FirstFit -> TrimOK cw alnum lbc custom_sp o first p ->
+  blen p < o_width o -> (if first then o_ii o else o_si o) = [] -> p <> [] ->
+  wrap_single_line cw alnum lbc custom_sp ofit o first p = slow_path cw alnum lbc custom_sp ofit o first p.
+Proof. exact shortcut_unobservable_first_fit. Qed.
+
+Theorem C05_shortcut_optimal_fit : forall (cw : char -> N) alnum lbc custom_sp,
+  (forall c, cw c <= utf8_len c) -> forall P o first p,
+  SplitterOK custom_sp -> o_alg o = OptimalFit P -> TrimOK cw alnum lbc custom_sp o first p ->
+  blen p < o_width o -> (if first then o_ii o else o_si o) = [] -> p <> [] ->
+  wrap_single_line cw alnum lbc custom_sp ofit_dp o first p = slow_path cw alnum lbc custom_sp ofit_dp o first p.
+Proof. exact shortcut_unobservable_optimal_fit. Qed.
+
+(* for the empty paragraph the two paths differ only in the Cow's address (a borrowed empty
+   slice of the buffer vs a static ""), never in the text *)
+Theorem C05_shortcut_texts : forall (cw : char -> N) alnum lbc custom_sp,
+  (forall c, cw c <= utf8_len c) -> forall ofit o first p,
+  SplitterOK custom_sp -> o_alg o = FirstFit -> TrimOK cw alnum lbc custom_sp o first p ->
+  texts (wrap_single_line cw alnum lbc custom_sp ofit o first p) =
+  texts (slow_path cw alnum lbc custom_sp ofit o first p).
+Proof. exact shortcut_texts_first_fit. Qed.
+
+(* (c) fill's own shortcut is unobservable, for all texts and options *)
+Theorem C05_fill_shortcut : forall cw alnum lbc custom_sp ofit o t,
+  fill cw alnum lbc custom_sp ofit o t = fill_slow cw alnum lbc custom_sp ofit o t.
+Proof. exact fill_shortcut_unobservable. Qed.
+
+(* the hypotheses are theorems in the common cases *)
+Theorem C05_hypotheses : forall cw alnum lbc custom_sp o first p, SplitterOK custom_sp ->
+  (o_sep o = SepAscii -> TrimOK cw alnum lbc custom_sp o first p) /\
+  (o_sep o = SepUnicode -> OracleOK (strip p) (lbc (strip p)) ->
+     NoBreakBetweenSpaces (strip p) (lbc (strip p)) -> TrimOK cw alnum lbc custom_sp o first p) /\
+  (o_spl o <> SplCustom -> forall bws, pipeline_words cw alnum lbc custom_sp o first p = Some bws -> PenOK bws) /\
+  (cw SP = 1 -> TrimOK cw alnum lbc custom_sp o first p ->
+     (forall bws, pipeline_words cw alnum lbc custom_sp o first p = Some bws -> TopLevelCuts bws) ->
+     Additive cw alnum lbc custom_sp o first p).
+Proof.
+  intros cw alnum lbc custom_sp o first p HS. split; [|split; [|split]].
+  - intros Ha. apply TrimOK_ascii; assumption.
+  - intros Ha Hb Hc. apply TrimOK_unicode; assumption.
+  - intros Ha bws Hb. eapply PenOK_builtin; eassumption.
+  - intros Ha Hb Hc. apply Additive_top_level; assumption.
+Qed.
+
+Print Assumptions C05_fits_first_fit.
+Print Assumptions C05_fits_optimal_fit.
+Print Assumptions C05_shortcut_first_fit.
+Print Assumptions C05_shortcut_optimal_fit.
+Print Assumptions C05_shortcut_texts.
+Print Assumptions C05_fill_shortcut.
+Print Assumptions C05_hypotheses.
